@@ -1,11 +1,11 @@
 /-
   Props/C10Fair.lean — property C10, LIVENESS form: "every thread waiting when the counter reaches
-  zero is released", for ALL weakly fair schedules.
+  zero is released", for ALL weakly fair schedules.  Nothing here is `_partial` except where named so.
 
   Model `Counter` (Model/Counter.lean).  Executions, fairness and hypotheses are defined in
-  `Proofs/CounterFairDefs.lean`:
-  * `Exec s0`        infinite execution (`σ i = none`: nobody moves at time `i`; ticks, stray events of
-                     other layers and stray semaphore posts may happen at any time);
+  `Proofs/CounterFairDefs.lean` (and `FiniteStrayPosts` in `Proofs/CounterFairTimeout.lean`):
+  * `Exec s0`        infinite execution (`σ i = none`: nobody moves at time `i`; ticks, events of other
+                     layers and stray semaphore posts may happen at any time);
   * `Moves x t j`    thread `t` executes the next operation of its own code at time `j` (its program
                      point changes; events the acceptor skips do not count);
   * `Blocked s t`    `t` is asleep in P-with-deadline on a semaphore with count 0 before its deadline,
@@ -13,57 +13,86 @@
   * `WeakFair x`     a thread that from some time on is inside a call and not blocked, moves.  The
                      holder of counter_mu is never blocked.  NOTE: a thread that has reached a contract
                      violation (an ASSERT of counter.c = a `Reject` of the acceptor: decrement below
-                     zero, overflow, increment from zero after a wait, free with waiters) has no
-                     accepted next operation, so an execution in which that happens is not weakly
-                     fair in this sense: `WeakFair` includes "no thread sits at a failed ASSERT for
-                     ever" (in the real system the process aborts there).
-  * `FiniteArrivals x`  only finitely many API calls (`call nsync_counter_*`) occur.
-  * `ClockAdvances x d` the clock eventually reaches `d`.
+                     zero, overflow, increment from zero after a wait, free with waiters, double free)
+                     has no accepted next operation, so an execution in which that happens is not
+                     weakly fair in this sense: `WeakFair` includes "no thread sits at a failed ASSERT
+                     for ever" (in the real system the process aborts there).
+  * `FiniteArrivals x`   only finitely many API calls (`call nsync_counter_*`) occur.
+  * `FiniteStrayPosts x` only finitely many semaphore posts come from outside the wake loop of
+                     nsync_counter_add (late posts of the Mu layer, which the acceptor accounts).
+  * `ClockAdvances x d`  the clock eventually reaches `d`.
 
-  ## Machine-checked here (no sorry, no axiom)
+  ## Machine-checked here
 
-  * `C10_fair_release_partial`: in every weakly fair execution from a reachable state with finitely
-    many arrivals, if at time `i` the value is 0 and `waited` is set (then the value stays 0:
-    `C10_zero_forever`), every thread that is inside nsync_counter_wait at a time `i' ≥ i` reaches
-    `idle` (returns) at some `j ≥ i'`, and every return point `wRet dl r` it passes has `r = 0` unless
-    it already was at that very return point at time `i'` (and then, if `r ≠ 0`, its deadline had
-    expired: `C10_wait_nonzero`).
-  * `C10_fair_release_stays_partial`: the same with the hypothesis "the value is 0 from time `i` on".
-  * `C10_fair_posted`: (NO `FiniteArrivals`) a thread asleep on its semaphore while the counter stays
-    zero is posted and leaves the P operation — fair form of `C10_no_lost_wakeup`.
-  * `C10_holder_releases`: (NO `FiniteArrivals`) the holder of counter_mu releases it.
-  * `C10_fair_needs_clock`: explicit weakly fair execution with finitely many arrivals in which a wait
-    with deadline 500 never returns because the clock stays at 0 and the counter at 1: without
-    `ClockAdvances` (or the counter reaching zero) a wait need not return.
+  * `C10_fair_release : C10_fair_release_full` — in EVERY weakly fair execution from a reachable state
+    (any number of threads and of arrivals, ticks and stray events at any time): if at time `i` the
+    value is 0 and `waited` is set (then the value stays 0, `C10_zero_forever`: an increment from zero
+    after a wait is a contract violation the acceptor rejects), every thread that is inside
+    nsync_counter_wait at a time `i' ≥ i` (there at time `i`, or entering later) reaches `idle`
+    (returns) at some `j ≥ i'`, and every return point `wRet dl r` it passes has `r = 0` unless it
+    already was at that very return point at time `i'` (and then, if `r ≠ 0`, its deadline had
+    expired: `C10_fair_release_result`, cf. `C10_wait_nonzero`).
+    NO `FiniteArrivals` hypothesis: at zero counter_mu is acquired only finitely often
+    (`C10_fair_lock_free`): an add with non-zero delta that took counter_mu would sit at its CAS for
+    ever, a free that took it frees the object, after which no call is accepted, and a wait that
+    starts at zero does not lock.
+  * `C10_fair_wait_returns : C10_fair_wait_returns_full` — a wait with a finite deadline `d` returns in
+    every weakly fair execution in which the clock reaches `d` (`ClockAdvances`), with finitely many
+    arrivals and finitely many stray posts.  Each of the three hypotheses is NEEDED:
+    - `C10_fair_needs_clock`        `sleepExec`: the clock stays at 0, the counter at 1, the sleeper
+                                    (deadline 500) is blocked for ever;
+    - `C10_fair_needs_arrivals`     `arriveExec` (lasso, period 27): thread 1 has timed out and asks for
+                                    counter_mu; thread 2's timed-out waits take counter_mu for ever, so
+                                    thread 1 is never continuously enabled (WEAK fairness, abstract lock);
+    - `C10_fair_needs_stray_posts`  `strayExec` (lasso, period 5): a stray post wakes the timed-out sleeper
+                                    (`pd_ret 0`), it finds the counter non-zero and sleeps again, for ever.
+    All three are weakly fair executions satisfying the other hypotheses in which the wait never returns.
+  * `C10_fair_release_stays_partial` — variant of `C10_fair_release` whose hypothesis is only "the value
+    is 0 from time `i` on" (`waited` not assumed), WITH `FiniteArrivals` (named `_partial` for that
+    reason; the full theorem above does not need it).
+  * `C10_fair_posted` — fair form of `C10_no_lost_wakeup`: a thread asleep on its semaphore while the
+    counter stays zero is posted and leaves the P operation.
+  * `C10_holder_releases` — the holder of counter_mu releases it.
   * non-vacuity: `releaseExec` (the accepted trace `Example.twoAddersAndWaiter` of Props/C10.lean, then
-    idling) satisfies all hypotheses; in it thread 2 is asleep on semaphore 2 with count 0 at time 39,
-    the time at which the zeroing CAS has just made the value 0; it is posted at time 40 and returns.
+    idling) satisfies the hypotheses; in it thread 2 is asleep on semaphore 2 with count 0, still
+    queued, at time 39 — the time at which the zeroing CAS has just made the value 0; it is posted at
+    time 40 and returns 0.  `timeoutExec` (`Example.timesOut`, then idling) satisfies the hypotheses of
+    `C10_fair_wait_returns`; in it thread 1 sleeps with deadline 500 at time 19 (clock 0) and returns 1
+    after the clock has reached 500.
 
-  ## `_partial`: what is missing (nothing is weakened silently)
+  ## The argument
+  `Proofs/CounterFairStep*.lean`: per-step facts read off the acceptor, one program point at a time
+  (`Prog`, `Prog2`, `Prog3`, `Prog4`).  `holder_releases`: rank `hm` (2·|queue| + position); needs the invariant
+  `JInv` (the value an add is about to CAS is the current one, so the CAS does not fail).
+  `pdwait_moves`: by `C10_no_lost_wakeup` a sleeper at zero with count 0 has a waker holding counter_mu
+  that cannot release it before it has posted.  `lock_eventually_free(_zero)`: counter_mu is acquired
+  finitely often (`lrank`, `lrank0`), then the last holder releases.  `fair_return_zero`: induction on
+  `wrank` (at zero the path through nsync_counter_wait has no loop).  `fair_return_expired`:
+  lexicographic induction on (units the record's semaphore can still deliver `Bf`, position `tpos`).
+  Weak fairness enters only through `fair_move`.
 
-  1. `C10_fair_release_full` is stated WITHOUT `FiniteArrivals`; proved is `C10_fair_release_partial`
-     WITH it.  `FiniteArrivals` is used in exactly one place (`lock_eventually_free`: under WEAK
-     fairness a thread waiting for counter_mu must see it free continuously; with finitely many calls
-     the lock is acquired finitely often — each call acquires it at most twice, rank `lrank`).  We
-     believe the hypothesis is NOT necessary for this theorem (at zero no new call can take
-     counter_mu and complete: a non-zero add is a contract violation, wait/value/add 0 do not lock),
-     so no witness of necessity is given; removing it needs two more invariants (the delta of an add
-     in progress is non-zero; `active` counts the calls in flight) and a bound on lock acquisitions
-     at zero.  NOT done.
-  2. `C10_fair_wait_returns_full` (a wait with a finite deadline returns once the clock passes it)
-     is STATED (hypotheses `WeakFair`, `FiniteArrivals`, `ClockAdvances`, `FiniteStrayPosts`) and NOT
-     proved.  Proved towards it: `C10_fair_needs_clock` (necessity of `ClockAdvances`) only.  The
-     necessity of `FiniteArrivals` (a lasso in which another thread's timed-out waits take counter_mu
-     for ever) and of `FiniteStrayPosts` (a lasso in which a stray post wakes the sleeper for ever:
-     pd_ret 0, ready_time, pd_enter, …) are described here but NOT machine-checked.
+  ## What `WeakFair` means: enabledness (`Proofs/CounterFairEnabled.lean`)
+  * `C10_thread_enabled` — in every reachable state a thread that is inside a call, not `Blocked` and
+    not `AtAssert` (at a failed ASSERT of counter.c: free with waiters, double free, an add whose CAS
+    would violate the contract, the `waited` check of an increment from zero) has an accepted event
+    that changes its program point.  So `WeakFair` is weak fairness on ENABLED threads, plus "nobody
+    sits at a failed ASSERT for ever".  (Invariants used: counter_mu's log name is bound while
+    somebody is past `call nsync_mu_lock`; `phase = creating` at the initialising store; a free record
+    id and a free semaphore id exist.)
+  * `C10_blocked_cannot_move` — conversely a `Blocked` thread has no accepted event that changes its
+    program point: `Blocked` is exactly "not enabled (and not at an ASSERT)".
 -/
-import NsyncVerif.Proofs.CounterFairTrace
+import NsyncVerif.Proofs.CounterFairTimeout
+import NsyncVerif.Proofs.CounterFairZeroLock
+import NsyncVerif.Proofs.CounterFairEnabled
+import NsyncVerif.Proofs.CounterFairWitnessA
+import NsyncVerif.Proofs.CounterFairWitnessB
 
 namespace Counter
 
 /-! ## statements at full strength -/
 
-/-- FULL statement (not proved; see `C10_fair_release_partial`). -/
+/-- FULL statement; proved below (`C10_fair_release`). -/
 def C10_fair_release_full : Prop :=
   ∀ (s0 : State) (x : Exec s0), Reachable s0 → WeakFair x →
     ∀ i, (x.ρ i).sh.value = 0 → (x.ρ i).sh.waited = true →
@@ -71,11 +100,7 @@ def C10_fair_release_full : Prop :=
       ∃ j, i' ≤ j ∧ (x.ρ j).pc t = .idle ∧
         ∀ j', i' ≤ j' → j' ≤ j → ∀ dl r, (x.ρ j').pc t = .wRet dl r → r = 0 ∨ (x.ρ i').pc t = .wRet dl r
 
-/-- Only finitely many semaphore posts come from outside the wake loop of nsync_counter_add. -/
-def FiniteStrayPosts {s0 : State} (x : Exec s0) : Prop :=
-  ∃ n, ∀ j t k, n ≤ j → x.σ j = some (.thr t (.semV k)) → ∃ d r idx w, (x.ρ j).pc t = .aPost d r idx w
-
-/-- FULL statement (not proved). -/
+/-- FULL statement; proved below (`C10_fair_wait_returns`). -/
 def C10_fair_wait_returns_full : Prop :=
   ∀ (s0 : State) (x : Exec s0), Reachable s0 → WeakFair x → FiniteArrivals x → FiniteStrayPosts x →
     ∀ t i (d : Int), pcDl ((x.ρ i).pc t) = some (some d) → ClockAdvances x d →
@@ -102,15 +127,29 @@ theorem C10_fair_release_stays_partial {s0 : State} (x : Exec s0) (hr : Reachabl
     (t : Tid) {i' : Nat} (hi : i ≤ i') (hw : inWait ((x.ρ i').pc t)) :
     ∃ j, i' ≤ j ∧ (x.ρ j).pc t = .idle ∧
       ∀ j', i' ≤ j' → j' ≤ j → ∀ dl r, (x.ρ j').pc t = .wRet dl r → r = 0 ∨ (x.ρ i').pc t = .wRet dl r :=
-  fair_return_zero x hr hf ha hz t _ i' hi (Nat.le_refl _) (Or.inr hw)
+  fair_return_zero x hr hf (lock_eventually_free x hr hf ha) hz t _ i' hi (Nat.le_refl _) (Or.inr hw)
 
-/-- `C10_fair_release_full` with the additional hypothesis `FiniteArrivals`. -/
-theorem C10_fair_release_partial {s0 : State} (x : Exec s0) (hr : Reachable s0) (hf : WeakFair x)
-    (ha : FiniteArrivals x) {i : Nat} (hz : (x.ρ i).sh.value = 0) (hw : (x.ρ i).sh.waited = true)
-    (t : Tid) {i' : Nat} (hi : i ≤ i') (hin : inWait ((x.ρ i').pc t)) :
-    ∃ j, i' ≤ j ∧ (x.ρ j).pc t = .idle ∧
-      ∀ j', i' ≤ j' → j' ≤ j → ∀ dl r, (x.ρ j').pc t = .wRet dl r → r = 0 ∨ (x.ρ i').pc t = .wRet dl r :=
-  C10_fair_release_stays_partial x hr hf ha (fun j hj => (C10_zero_forever x hr hz hw j hj).1) t hi hin
+/-- "Every thread waiting when the counter reaches zero is released", liveness form, for all weakly
+    fair schedules and any number of arrivals. -/
+theorem C10_fair_release : C10_fair_release_full := by
+  intro s0 x hr hf i hz hw t i' hi hin
+  have hzw := C10_zero_forever x hr hz hw
+  exact fair_return_zero x hr hf (lock_eventually_free_zero x hr hf hzw) (fun j hj => (hzw j hj).1) t _ i' hi
+    (Nat.le_refl _) (Or.inr hin)
+
+/-- a thread at a return point with a non-zero result: its deadline has expired -/
+theorem C10_fair_release_result {s0 : State} (x : Exec s0) (hr : Reachable s0) {t : Tid} {i : Nat} {dl : Deadline}
+    {r : Nat} (h : (x.ρ i).pc t = .wRet dl r) (hne : r ≠ 0) : expired dl (x.ρ i).sh.now := by
+  have hp := (inv_of_reachable (x.reach hr i)).pcs t
+  rw [h] at hp
+  exact hp.2.2 hne
+
+/-- Once the counter is zero and a wait has been called, counter_mu is eventually free for ever
+    (no `FiniteArrivals`). -/
+theorem C10_fair_lock_free {s0 : State} (x : Exec s0) (hr : Reachable s0) (hf : WeakFair x) {i : Nat}
+    (hz : (x.ρ i).sh.value = 0) (hw : (x.ρ i).sh.waited = true) :
+    ∃ n, ∀ j, n ≤ j → (x.ρ j).sh.lockHolder = none :=
+  lock_eventually_free_zero x hr hf (C10_zero_forever x hr hz hw)
 
 /-- Fair form of `C10_no_lost_wakeup` (no `FiniteArrivals`): a thread asleep in P-with-deadline
     while the counter stays zero leaves the P operation. -/
@@ -128,18 +167,24 @@ theorem C10_holder_releases {s0 : State} (x : Exec s0) (hr : Reachable s0) (hf :
   have := holds_of_holder (inv_of_reachable (x.reach hr j')) h3
   rw [h2] at this; cases this
 
-/-! ## non-vacuity -/
+/-- A wait with a finite deadline returns once the clock has passed the deadline. -/
+theorem C10_fair_wait_returns : C10_fair_wait_returns_full := by
+  intro s0 x hr hf ha hs t i d hw hc
+  exact fair_return_expired x hr hf ha hs hc t hw
 
-theorem final_idle_of_bound {evs : List Event} {sf : State} (h : run init evs = .ok sf) (B : Nat)
-    (hb : evs.all (fun e => match e.tidOf with | some u => decide (u < B) | none => true) = true)
-    {t : Tid} (ht : ¬ t < B) : sf.pc t = .idle := by
-  have hne : ∀ e ∈ evs, e.tidOf ≠ some t := by
-    intro e he htid
-    simp only [List.all_eq_true] at hb
-    have := hb e he
-    rw [htid] at this
-    exact ht (by simpa using this)
-  exact run_untouched evs init sf reachable_init hne h
+/-- The acceptor blocks a thread only on a semaphore whose count is 0 (before its deadline), on
+    counter_mu while it is held, or at a failed ASSERT of counter.c. -/
+theorem C10_thread_enabled {s : State} (hr : Reachable s) {t : Tid} (hne : s.pc t ≠ .idle)
+    (hnb : ¬ Blocked s t) (hna : ¬ AtAssert s t) :
+    ∃ e s', step s (.thr t e) = .ok s' ∧ s'.pc t ≠ s.pc t :=
+  thread_enabled hr hne hnb hna
+
+/-- A blocked thread has no accepted event that changes its program point. -/
+theorem C10_blocked_cannot_move {s s' : State} {t : Tid} {e : Ev} (hb : Blocked s t)
+    (h : step s (.thr t e) = .ok s') : s'.pc t = s.pc t :=
+  blocked_cannot_move hb h
+
+/-! ## non-vacuity -/
 
 open Example in
 def releaseFinal : State := stateAt twoAddersAndWaiter twoAddersAndWaiter.length
@@ -166,13 +211,13 @@ theorem release_final_idle (t : Tid) : releaseFinal.pc t = .idle := by
     simp only [final, release_run, Option.map_some, Option.some.injEq, List.all_eq_true, List.mem_range,
       decide_eq_true_eq] at h
     exact h t ht
-  · exact final_idle_of_bound release_run 3 (by decide) ht
+  · exact idle_of_bound reachable_init release_run 3 (by decide) ht
 
 open Example in
 theorem release_tail {j : Nat} (hj : 57 ≤ j) : releaseExec.ρ j = releaseFinal ∧ releaseExec.σ j = none :=
   traceExec_tail release_run (by show twoAddersAndWaiter.length ≤ j; exact hj)
 
-/-- `releaseExec` satisfies the hypotheses of `C10_fair_release_partial` … -/
+/-- `releaseExec` satisfies the hypotheses of `C10_fair_release` (and `FiniteArrivals`) … -/
 theorem release_hyps : Reachable init ∧ WeakFair releaseExec ∧ FiniteArrivals releaseExec :=
   ⟨reachable_init,
    weakFair_of_final releaseExec 57 (fun j hj t => by rw [(release_tail hj).1]; exact Or.inl (release_final_idle t)),
@@ -194,12 +239,63 @@ example : ∃ j, 39 ≤ j ∧ (releaseExec.ρ j).pc 2 = .idle ∧
     ∀ j', 39 ≤ j' → j' ≤ j → ∀ dl r, (releaseExec.ρ j').pc 2 = .wRet dl r → r = 0 := by
   have h39 : (releaseExec.ρ 39).sh.value = 0 ∧ (releaseExec.ρ 39).sh.waited = true ∧
       (releaseExec.ρ 39).pc 2 = .wPdWait none 0 2 := by decide
-  obtain ⟨j, h1, h2, h3⟩ := C10_fair_release_partial releaseExec release_hyps.1 release_hyps.2.1
-    release_hyps.2.2 h39.1 h39.2.1 2 (Nat.le_refl 39) (by rw [h39.2.2]; simp [inWait, wrank])
+  obtain ⟨j, h1, h2, h3⟩ := C10_fair_release _ releaseExec release_hyps.1 release_hyps.2.1
+    39 h39.1 h39.2.1 2 39 (Nat.le_refl 39) (by rw [h39.2.2]; simp [inWait, wrank])
   refine ⟨j, h1, h2, fun j' a b dl r hr => ?_⟩
   rcases h3 j' a b dl r hr with c | c
   · exact c
   · rw [h39.2.2] at c; cases c
+
+/-! ### non-vacuity of `C10_fair_wait_returns`: `Example.timesOut`, then idling -/
+
+open Example in
+def timeoutFinal : State := stateAt timesOut timesOut.length
+
+open Example in
+theorem timeout_run : run init timesOut = .ok timeoutFinal := by
+  have h : accepts timesOut = true := by decide
+  simp only [accepts, final] at h
+  split at h
+  · rename_i s hs
+    have := stateAt_ge hs (Nat.le_refl timesOut.length)
+    rw [timeoutFinal, this]; exact hs
+  · cases h
+
+open Example in
+/-- counter at 1; thread 1 waits with deadline 500, queues, sleeps (time 19); the clock goes to 499, 500;
+    thread 1 gets ETIMEDOUT, dequeues itself, returns 1; then nothing for ever -/
+def timeoutExec : Exec init := traceExec timesOut timeoutFinal timeout_run
+
+open Example in
+theorem timeout_tail {j : Nat} (hj : 33 ≤ j) : timeoutExec.ρ j = timeoutFinal ∧ timeoutExec.σ j = none :=
+  traceExec_tail timeout_run (by show timesOut.length ≤ j; exact hj)
+
+open Example in
+theorem timeout_final_idle (t : Tid) : timeoutFinal.pc t = .idle := by
+  by_cases ht : t < 2
+  · have h : (final timesOut).map (fun s => (List.range 2).all (fun t => decide (s.pc t = .idle)))
+        = some true := by decide
+    simp only [final, timeout_run, Option.map_some, Option.some.injEq, List.all_eq_true, List.mem_range,
+      decide_eq_true_eq] at h
+    exact h t ht
+  · exact idle_of_bound reachable_init timeout_run 2 (by decide) ht
+
+theorem timeout_hyps : Reachable init ∧ WeakFair timeoutExec ∧ FiniteArrivals timeoutExec ∧
+    FiniteStrayPosts timeoutExec ∧ ClockAdvances timeoutExec 500 :=
+  ⟨reachable_init,
+   weakFair_of_final timeoutExec 33 (fun j hj t => by rw [(timeout_tail hj).1]; exact Or.inl (timeout_final_idle t)),
+   finiteArrivals_of_tail timeoutExec 33 (fun j hj => (timeout_tail hj).2),
+   ⟨33, fun j t k hj he => by rw [(timeout_tail hj).2] at he; cases he⟩,
+   ⟨22, by decide⟩⟩
+
+/-- at time 19 thread 1 is asleep (count 0, clock 0 < 500) inside a wait with deadline 500; the
+    theorem says it returns -/
+example : (timeoutExec.ρ 19).pc 1 = .wPdWait (some 500) 3 1 ∧ (timeoutExec.ρ 19).sh.sem 1 = 0 ∧
+    (timeoutExec.ρ 19).sh.now = 0 ∧ (timeoutExec.ρ 19).sh.value = 1 := by decide
+
+example : ∃ j, 19 ≤ j ∧ (timeoutExec.ρ j).pc 1 = .idle :=
+  C10_fair_wait_returns _ timeoutExec timeout_hyps.1 timeout_hyps.2.1 timeout_hyps.2.2.1 timeout_hyps.2.2.2.1
+    1 19 500 (by decide) timeout_hyps.2.2.2.2
 
 /-! ## `ClockAdvances` (or the counter reaching zero) is needed for a wait to return
 
@@ -244,7 +340,7 @@ theorem C10_fair_needs_clock :
       | 0, _, _ => exact f4
       | 1, ht, _ => exact absurd rfl ht
       | n + 2, _, h2 => exact absurd h2 (Nat.not_lt.2 (Nat.le_add_left 2 n))
-    · exact final_idle_of_bound sleep_run 2 (by decide) h2
+    · exact idle_of_bound reachable_init sleep_run 2 (by decide) h2
   refine ⟨reachable_init, ?_, finiteArrivals_of_tail sleepExec 19 (fun j hj => (sleep_tail hj).2), ?_, ?_, ?_, ?_⟩
   · refine weakFair_of_final sleepExec 19 (fun j hj t => ?_)
     rw [(sleep_tail hj).1]
@@ -260,5 +356,74 @@ theorem C10_fair_needs_clock :
   · rw [(sleep_tail (Nat.le_refl 19)).1, f1]; rfl
   · rw [(sleep_tail (Nat.le_refl 19)).1, f1]; simp [inWait, wrank]
   · intro j hj; rw [(sleep_tail hj).1, f1]; simp
+
+/-! ## `FiniteStrayPosts` is needed for `C10_fair_wait_returns`
+
+`strayExec` (Proofs/CounterFairWitnessA.lean): counter at 1, thread 1 asleep with deadline 500, the
+clock at 500; then for ever: idle thread 0 (another layer) posts the semaphore, thread 1 wakes up with
+`pd_ret 0`, runs ready_time (not ready) and goes back to sleep with `pd_enter` — it never gets the
+ETIMEDOUT that would let it leave.  Weakly fair (thread 1 moves), no arrival, the clock has passed the
+deadline. -/
+
+theorem C10_fair_needs_stray_posts :
+    Reachable init ∧ WeakFair strayExec ∧ FiniteArrivals strayExec ∧ ClockAdvances strayExec 500 ∧
+      ¬ FiniteStrayPosts strayExec ∧ pcDl ((strayExec.ρ 20).pc 1) = some (some 500) ∧
+      ∀ j, 20 ≤ j → (strayExec.ρ j).pc 1 ≠ .idle := by
+  have h20 : strayExec.ρ 20 = strayA := by
+    have := (stray_at 0 (r := 0) (by decide)).1
+    rw [show strayLoop.take 0 = [] from rfl, stateFrom_nil] at this
+    exact this
+  refine ⟨reachable_init, stray_weakFair, ?_, ?_, ?_, ?_, stray_never⟩
+  · refine ⟨20, fun j t e hj he => ?_⟩
+    obtain ⟨m, r, hr, rfl⟩ : ∃ m r, r < 5 ∧ j = 20 + 5 * m + r :=
+      ⟨(j - 20) / 5, (j - 20) % 5, Nat.mod_lt _ (by decide), by omega⟩
+    rw [(stray_at m hr).2] at he
+    have hm := List.mem_of_getElem? he
+    have hall : strayLoop.all (fun ev => match ev with | .thr _ e => !e.isCall | _ => true) = true := by decide
+    simp only [List.all_eq_true] at hall
+    simpa using hall _ hm
+  · exact ⟨20, by rw [h20, strayA_facts.2.2.2.2.2.2]; decide⟩
+  · rintro ⟨n, hn⟩
+    have hσ := (stray_at n (r := 0) (by decide)).2
+    have hρ := (stray_at n (r := 0) (by decide)).1
+    obtain ⟨d, r, idx, w, hpc⟩ := hn (20 + 5 * n + 0) 0 1 (by omega) hσ
+    rw [hρ, (stray_loop_pcs 0 (by decide)).2] at hpc
+    cases hpc
+  · rw [h20, strayA_facts.1]; rfl
+
+/-! ## `FiniteArrivals` is needed for `C10_fair_wait_returns` (weak fairness and the abstract lock)
+
+`arriveExec` (Proofs/CounterFairWitnessB.lean): counter at 1; thread 1's wait (deadline 500) has timed out
+at time 500 and asks for counter_mu in order to dequeue itself; for ever, thread 2 calls
+nsync_counter_wait with the passed deadline 100: each call takes counter_mu twice (enqueue, dequeue).
+Thread 1 is blocked whenever thread 2 holds counter_mu, so it is not continuously enabled and weak
+fairness does not oblige it to move: it never returns.  No semaphore post at all, the clock has passed
+the deadline. -/
+
+theorem C10_fair_needs_arrivals :
+    Reachable init ∧ WeakFair arriveExec ∧ FiniteStrayPosts arriveExec ∧ ClockAdvances arriveExec 500 ∧
+      ¬ FiniteArrivals arriveExec ∧ pcDl ((arriveExec.ρ 49).pc 1) = some (some 500) ∧
+      ∀ j, 49 ≤ j → (arriveExec.ρ j).pc 1 ≠ .idle := by
+  have h49 : arriveExec.ρ 49 = arriveA := by
+    have := (arrive_at 0 (r := 0) (by decide)).1
+    rw [show arriveLoop.take 0 = [] from rfl, stateFrom_nil] at this
+    exact this
+  refine ⟨reachable_init, arrive_weakFair, ?_, ?_, ?_, ?_, arrive_never⟩
+  · refine ⟨49, fun j t k hj he => ?_⟩
+    exfalso
+    obtain ⟨m, r, hr, rfl⟩ : ∃ m r, r < 27 ∧ j = 49 + 27 * m + r :=
+      ⟨(j - 49) / 27, (j - 49) % 27, Nat.mod_lt _ (by decide), by omega⟩
+    rw [(arrive_at m hr).2] at he
+    have hm := List.mem_of_getElem? he
+    have hall : arriveLoop.all (fun ev => match ev with | .thr _ (.semV _) => false | _ => true) = true := by
+      decide
+    simp only [List.all_eq_true] at hall
+    simpa using hall _ hm
+  · exact ⟨49, by rw [h49, arriveA_facts.2.2.2.2.2.2.2.2.1]; decide⟩
+  · rintro ⟨n, hn⟩
+    have hσ := (arrive_at n (r := 0) (by decide)).2
+    have := hn (49 + 27 * n + 0) 2 (.callWait (some 100)) (by omega) hσ
+    cases this
+  · rw [h49, arriveA_facts.2.2.2.2.2.2.2.2.2.1]; rfl
 
 end Counter
